@@ -26,7 +26,7 @@ point between two persistence events of every workload".
 namespace Badger
 
 /-- C08 for every history of the protocol machine (every crash point between two events). -/
-theorem C08_kill_safe (R : ViewRel) (c : Cfg) (h : List Sched) (hok : HistOk R (MState.init c).p h) :
+theorem C08_kill_safe (R : ViewRel) (c : Cfg) (h : List Sched) (hok : SchedHistOk R (MState.init c).p h) :
     ∃ r, recover false (crashKill ((MState.init c).exec h).fs) = .ok r ∧
       ∃ k, ((MState.init c).exec h).p.acked ≤ k ∧ k ≤ ((MState.init c).exec h).p.commits.length ∧
         R.r r.entries (txnsEnts (((MState.init c).exec h).p.commits.take k)) := by
@@ -59,27 +59,27 @@ theorem atoms_take (p : PState) (h : List Sched) (n : Nat) : (p.atoms h).take n 
     | zero => simp [PState.atoms]
     | succ n => simp [PState.atoms, ih]
 
-theorem HistOk_take (R : ViewRel) (p : PState) (h : List Sched) (n : Nat) (hok : HistOk R p h) :
-    HistOk R p (h.take n) := by
+theorem SchedHistOk_take (R : ViewRel) (p : PState) (h : List Sched) (n : Nat) (hok : SchedHistOk R p h) :
+    SchedHistOk R p (h.take n) := by
   induction h generalizing p n with
   | nil => simpa using hok
   | cons x h ih =>
     cases n with
-    | zero => simp [HistOk]
+    | zero => simp [SchedHistOk]
     | succ n =>
-      rw [List.take_succ_cons, HistOk_cons]
-      rw [HistOk_cons] at hok
+      rw [List.take_succ_cons, SchedHistOk_cons]
+      rw [SchedHistOk_cons] at hok
       exact ⟨hok.1, ih _ _ hok.2⟩
 
 /-- C08 over the sequence of persistence events a history emits: cut it after any `n` events
     (`n` larger than the history = no crash), kill the process, open the directory. The commits
     issued / acknowledged by then are those of the prefix `h.take n`. -/
-theorem C08_kill_safe_events (R : ViewRel) (c : Cfg) (h : List Sched) (hok : HistOk R (MState.init c).p h) (n : Nat) :
+theorem C08_kill_safe_events (R : ViewRel) (c : Cfg) (h : List Sched) (hok : SchedHistOk R (MState.init c).p h) (n : Nat) :
     ∃ r, recover false (crashKill ((MState.init c).fs.run (((MState.init c).p.atoms h).take n).flatten)) = .ok r ∧
       ∃ k, ((MState.init c).exec (h.take n)).p.acked ≤ k ∧
         k ≤ ((MState.init c).exec (h.take n)).p.commits.length ∧
         R.r r.entries (txnsEnts (((MState.init c).exec (h.take n)).p.commits.take k)) := by
-  have := C08_kill_safe R c (h.take n) (HistOk_take R _ h n hok)
+  have := C08_kill_safe R c (h.take n) (SchedHistOk_take R _ h n hok)
   rw [exec_fs, ← atoms_take] at this
   exact this
 
@@ -159,26 +159,26 @@ example : ((MState.init {}).exec demoFlush).p.acked = 1 ∧
     ((MState.init {}).exec demoFlush).p.tableEnts 1 = [{ key := [1], ver := 1, del := false, val := [1] }] := by
   decide
 
-theorem HistOk_append (R : ViewRel) (p : PState) (a b : List Sched) :
-    HistOk R p (a ++ b) ↔ HistOk R p a ∧ HistOk R (a.foldl (fun p x => (p.step x).2) p) b := by
+theorem SchedHistOk_append (R : ViewRel) (p : PState) (a b : List Sched) :
+    SchedHistOk R p (a ++ b) ↔ SchedHistOk R p a ∧ SchedHistOk R (a.foldl (fun p x => (p.step x).2) p) b := by
   induction a generalizing p with
-  | nil => simp [HistOk]
-  | cons x a ih => simp only [List.cons_append, HistOk, List.foldl_cons, ih, and_assoc]
+  | nil => simp [SchedHistOk]
+  | cons x a ih => simp only [List.cons_append, SchedHistOk, List.foldl_cons, ih, and_assoc]
 
 set_option maxHeartbeats 1000000 in
 /-- a history with a compaction that is admissible for the set view (the output table holds
     exactly the entries of the input table) -/
-example : HistOk setView (MState.init {}).p demoHistory := by
+example : SchedHistOk setView (MState.init {}).p demoHistory := by
   unfold demoHistory
-  rw [HistOk_append]
-  refine ⟨by simp [demoFlush, HistOk], ?_⟩
+  rw [SchedHistOk_append]
+  refine ⟨by simp [demoFlush, SchedHistOk], ?_⟩
   have ht : (demoFlush.foldl (fun p x => (p.step x).2) (MState.init {}).p).tableEnts 1 =
       [{ key := [1], ver := 1, del := false, val := [1] }] := by decide
-  simp only [HistOk, and_true, List.map, List.flatten, ht]
+  simp only [SchedHistOk, and_true, List.map, List.flatten, ht]
   intro e; simp
 
 /-- histories without compactions are admissible for every view -/
-example (R : ViewRel) : HistOk R (MState.init {}).p demoFlush := by
-  simp [demoFlush, HistOk]
+example (R : ViewRel) : SchedHistOk R (MState.init {}).p demoFlush := by
+  simp [demoFlush, SchedHistOk]
 
 end Badger
